@@ -109,7 +109,7 @@ func (r *InitiatorRig) Returned() bool {
 // tests/acceptor.go does.
 func AcceptorSession(cfg Cfg, h simplefixgo.AcceptorHandler, cs session.CounterStorage, ms session.MessageStorage) (*session.Session, error) {
 	closeTimeout := time.Duration(cfg.CloseTimeoutMs) * time.Millisecond
-	s, err := session.NewAcceptorSession(Opts(cfg.Methods), h,
+	s, err := session.NewAcceptorSession(OptsFor(cfg), h,
 		&session.LogonSettings{LogonTimeout: 30 * time.Second, CloseTimeout: closeTimeout,
 			HeartBtLimits: &session.IntLimits{Min: cfg.HBMin, Max: cfg.HBMax}},
 		func(req *session.LogonSettings) error {
@@ -130,7 +130,7 @@ func AcceptorSession(cfg Cfg, h simplefixgo.AcceptorHandler, cs session.CounterS
 // InitiatorSession builds the initiating session the way tests/initiator.go does.
 func InitiatorSession(cfg Cfg, h *simplefixgo.DefaultHandler, cs session.CounterStorage, ms session.MessageStorage) (*session.Session, error) {
 	closeTimeout := time.Duration(cfg.CloseTimeoutMs) * time.Millisecond
-	s, err := session.NewInitiatorSession(h, Opts(cfg.Methods),
+	s, err := session.NewInitiatorSession(h, OptsFor(cfg),
 		&session.LogonSettings{TargetCompID: cfg.Target, SenderCompID: cfg.Sender, HeartBtInt: cfg.HBInt,
 			EncryptMethod: cfg.Methods[0], Username: cfg.User, Password: cfg.Pass, CloseTimeout: closeTimeout,
 			LogonTimeout: 30 * time.Second},
